@@ -162,6 +162,10 @@ func (m *SubscribeMessage) Decode(src []byte) (int, error) {
 		return total, err
 	}
 
+	if len(src[total:]) < 2 {
+		return total, fmt.Errorf("subscribe/Decode: Insufficient buffer size. Expecting %d, got %d", 2, len(src[total:]))
+	}
+
 	//this.packetId = binary.BigEndian.Uint16(src[total:])
 	m.packetID = src[total : total+2]
 	total += 2
@@ -172,6 +176,10 @@ func (m *SubscribeMessage) Decode(src []byte) (int, error) {
 		total += n
 		if err != nil {
 			return total, err
+		}
+
+		if len(src[total:]) < 1 {
+			return total, fmt.Errorf("subscribe/Decode: Insufficient buffer size. Expecting %d, got %d", 1, len(src[total:]))
 		}
 
 		m.topics = append(m.topics, t)
